@@ -704,6 +704,25 @@ def main():
                 ck.count("lookup")
                 if def_tuple(got) != def_tuple(want) or def_tuple(g2.definition) != def_tuple(want):
                     ck.violation(f"C15/lookup/{name}", f"prepare_graph({name!r}, n={n}) differs from the constructor's definition", {"case": {"family": "lookup", "name": name, "n": n, "k": k}})
+    # every constructor's own name: when the lookup accepts it, it must map back to that definition
+    own = []
+    for fam, (ctor, spec, params) in FAMILIES.items():
+        for args in params(7):
+            try:
+                own.append((fam, args, ctor(*args)))
+            except Exception:  # pylint: disable=broad-except
+                pass
+    for fam, args, d in own:
+        if not d.name:
+            continue
+        ck.case(["own-name", fam, list(args)], True)
+        ck.count("own-name")
+        try:
+            back = prepare_graph(d.name)
+        except (ValueError, AssertionError, KeyError, TypeError, IndexError):
+            continue
+        if def_tuple(back) != def_tuple(d):
+            ck.violation(f"C15/name-roundtrip/{fam}", f"the own name {d.name!r} of {fam}{args} is accepted by the lookup but maps to a different definition", {"case": {"family": "name-roundtrip", "name": d.name, "args": list(args)}})
     for n in range(3, 10):
         for fam, ctor in (("lrx", PG.lrx), ("lx", PG.lx)):
             d = ctor(n)
